@@ -20,9 +20,10 @@ def _vi(name, dtype, shape):
     return H.make_tensor_value_info(name, dtype, shape)
 
 
-def _model(nodes, inputs, outputs, inits=(), opset=OPSET, value_info=()):
+def _model(nodes, inputs, outputs, inits=(), opset=OPSET, value_info=(), functions=()):
     g = H.make_graph(list(nodes), "g", list(inputs), list(outputs), initializer=list(inits), value_info=list(value_info))
-    m = H.make_model(g, opset_imports=[H.make_opsetid("", opset)])
+    imports = [H.make_opsetid("", opset)] + ([H.make_opsetid("custom", 1)] if functions else [])
+    m = H.make_model(g, opset_imports=imports, functions=list(functions))
     m.ir_version = 10
     return m
 
@@ -364,6 +365,23 @@ def capture_family():
             yield (f"K/{pname}/captured_{where}", _model(list(nodes) + [ifn], [_vi("in_0", F, list(shape)), _vi("in_1", TP.BOOL, [])],
                                                           [_vi("z", F, list(zshape)), _vi("w", mdt, list(mshape))], list(inits) + [other]))
 
+    # Mul(x, Sigmoid(x)) -> Swish (opset 24): the Sigmoid output observed only inside an If body / by another node
+    for where in ("then_only", "else_only", "both"):
+        for order in ("x_sig", "sig_x"):
+            ins = ["in_0", "m"] if order == "x_sig" else ["m", "in_0"]
+            nodes = [H.make_node("Sigmoid", ["in_0"], ["m"], name="Sig"), H.make_node("Mul", ins, ["z"], name="Mul")]
+            other = _const("k", np.zeros((2, 3), np.float32))
+            def brs(tag, use):
+                src = "m" if use else "k"
+                return H.make_graph([H.make_node("Neg", [src], [f"b{tag}"])], f"g{tag}", [], [_vi(f"b{tag}", F, [2, 3])])
+            ifn = H.make_node("If", ["in_1"], ["w"], then_branch=brs("t", where in ("then_only", "both")),
+                              else_branch=brs("e", where in ("else_only", "both")), name="If")
+            yield (f"K/mul_sigmoid/{order}/captured_{where}", _model(nodes + [ifn], [_vi("in_0", F, [2, 3]), _vi("in_1", TP.BOOL, [])],
+                                                                    [_vi("z", F, [2, 3]), _vi("w", F, [2, 3])], [other], opset=24))
+    nodes = [H.make_node("Sigmoid", ["in_0"], ["m"], name="Sig"), H.make_node("Mul", ["in_0", "m"], ["z"], name="Mul"),
+             H.make_node("Relu", ["m"], ["w"], name="R")]
+    yield "K/mul_sigmoid/sigmoid_also_read_by_node", _model(nodes, [_vi("in_0", F, [2, 3])], [_vi("z", F, [2, 3]), _vi("w", F, [2, 3])], opset=24)
+
 
 def multi_family():
     """two instances of a rewrite pattern in ONE graph sharing a constant (axes / shape tensors / side operand)"""
@@ -414,6 +432,94 @@ def multi_family():
                   [_vi("ya", F, [2, 3, 4]), _vi("yb", F, [2, 3, 4])]))
 
 
+def _lookalike(op, n_in=1, attrs=(), opset=OPSET):
+    """a model-local function in domain 'custom' whose NAME is a standard operator but whose body is something else
+    (a Softmax over axis 0 / a MatMul): neither elementwise nor a layout change, same shape in and out on square inputs"""
+    ins = [f"a{i}" for i in range(n_in)]
+    if n_in == 1 or op == "Reshape":
+        body = [H.make_node("Softmax", ["a0"], ["r"], axis=0)]
+    else:
+        body = [H.make_node("MatMul", ["a0", "a1"], ["r"])]
+    return H.make_function("custom", op, ins, ["r"], body, [H.make_opsetid("", opset)], attributes=list(attrs))
+
+
+def lookalike_family():
+    """every rewrite pattern with ONE participating node replaced by a custom-domain function of the same op_type name:
+    the optimizer must not treat it as the standard operator"""
+    sq = [3, 3]
+    I0, I1 = _vi("in_0", F, sq), _vi("in_1", F, sq)
+    Y = [_vi("y", F, sq)]
+
+    def cn(op, ins, outs, name, **kw):
+        return H.make_node(op, ins, outs, name=name, domain="custom", **kw)
+    # transpose pair, middle lookalike elementwise
+    for mid in ("Relu", "Cast", "Neg", "Tanh"):
+        nodes = [H.make_node("Transpose", ["in_0"], ["t1"], perm=[1, 0], name="T1"), cn(mid, ["t1"], ["c"], "Mid"),
+                 H.make_node("Transpose", ["c"], ["y"], perm=[1, 0], name="T2")]
+        yield f"F/transpose_pair/mid=custom.{mid}", _model(nodes, [I0], Y, functions=[_lookalike(mid)])
+    # transpose pair, one of the transposes is a lookalike (carries a perm attribute)
+    for which in (1, 2):
+        t1 = (cn if which == 1 else H.make_node)("Transpose", ["in_0"], ["t1"], **({"name": "T1", "perm": [1, 0]}))
+        t2 = (cn if which == 2 else H.make_node)("Transpose", ["c"], ["y"], **({"name": "T2", "perm": [1, 0]}))
+        nodes = [t1, H.make_node("Relu", ["t1"], ["c"], name="Mid"), t2]
+        yield f"F/transpose_pair/T{which}=custom.Transpose", _model(nodes, [I0], Y, functions=[_lookalike("Transpose", attrs=["perm"])])
+    # reshape pair: middle / first / second lookalike
+    inits = [_const("s1", np.array([9], np.int64)), _const("s2", np.array([3, 3], np.int64))]
+    nodes = [H.make_node("Reshape", ["in_0", "s1"], ["r1"], name="R1"), cn("Relu", ["r1"], ["c"], "Mid"),
+             H.make_node("Reshape", ["c", "s2"], ["y"], name="R2")]
+    yield "F/reshape_pair/mid=custom.Relu", _model(nodes, [I0], Y, inits, functions=[_lookalike("Relu")])
+    inits2 = [_const("s1", np.array([3, 3], np.int64)), _const("s2", np.array([3, 3], np.int64))]
+    for which in (1, 2):
+        r1 = (cn if which == 1 else H.make_node)("Reshape", ["in_0", "s1"], ["r1"], **{"name": "R1"})
+        r2 = (cn if which == 2 else H.make_node)("Reshape", ["c", "s2"], ["y"], **{"name": "R2"})
+        for chain in ((), ("Relu",)):
+            mids, cur = [], "r1"
+            for j, op in enumerate(chain):
+                mids.append(H.make_node(op, [cur], [f"m{j}"], name=f"M{j}"))
+                cur = f"m{j}"
+            r2.input[0] = cur
+            yield (f"F/reshape_pair/R{which}=custom.Reshape/{'+'.join(chain) or 'direct'}",
+                   _model([r1] + mids + [r2], [I0], Y, inits2, functions=[_lookalike("Reshape", n_in=2)]))
+    # identity reshape lookalike
+    yield ("F/identity_reshape/custom.Reshape", _model([cn("Reshape", ["in_0", "s2"], ["y"], "R")], [I0], Y, [inits[1]],
+                                                       functions=[_lookalike("Reshape", n_in=2)]))
+    # cast pair lookalikes
+    for which in (1, 2):
+        c1 = (cn if which == 1 else H.make_node)("Cast", ["in_0"], ["d"], **{"name": "C1", "to": TP.DOUBLE})
+        c2 = (cn if which == 2 else H.make_node)("Cast", ["d"], ["y"], **{"name": "C2", "to": F})
+        fn = H.make_function("custom", "Cast", ["a0"], ["r"],
+                             [H.make_node("Softmax", ["a0"], ["s"], axis=0), H.make_node("Cast", ["s"], ["r"], to=(TP.DOUBLE if which == 1 else F))],
+                             [H.make_opsetid("", OPSET)], attributes=["to"])
+        yield f"F/cast_pair/C{which}=custom.Cast", _model([c1, c2], [I0], Y, functions=[fn])
+    yield ("F/identity_cast/custom.Cast", _model([cn("Cast", ["in_0"], ["y"], "C", to=F)], [I0], Y,
+                                                 functions=[H.make_function("custom", "Cast", ["a0"], ["r"], [H.make_node("Softmax", ["a0"], ["r"], axis=0)],
+                                                                            [H.make_opsetid("", OPSET)], attributes=["to"])]))
+    # swish lookalikes (opset 24)
+    nodes = [cn("Sigmoid", ["in_0"], ["s"], "Sig"), H.make_node("Mul", ["in_0", "s"], ["y"], name="Mul")]
+    yield "F/mul_sigmoid/custom.Sigmoid", _model(nodes, [I0], Y, opset=24, functions=[_lookalike("Sigmoid", opset=24)])
+    nodes = [H.make_node("Sigmoid", ["in_0"], ["s"], name="Sig"), cn("Mul", ["in_0", "s"], ["y"], "Mul")]
+    yield "F/mul_sigmoid/custom.Mul", _model(nodes, [I0], Y, opset=24, functions=[_lookalike("Mul", n_in=2, opset=24)])
+    # transposed-operands Add forest with a lookalike Add / lookalike Transposes
+    nodes = [H.make_node("Transpose", ["in_0"], ["ta"], perm=[1, 0], name="TA"), H.make_node("Transpose", ["in_1"], ["tb"], perm=[1, 0], name="TB"),
+             cn("Add", ["ta", "tb"], ["s"], "Add"), H.make_node("Transpose", ["s"], ["y"], perm=[1, 0], name="TO")]
+    yield "F/add_forest/custom.Add", _model(nodes, [I0, I1], Y, functions=[_lookalike("Add", n_in=2)])
+    nodes = [cn("Transpose", ["in_0"], ["ta"], "TA", perm=[1, 0]), H.make_node("Transpose", ["in_1"], ["tb"], perm=[1, 0], name="TB"),
+             H.make_node("Add", ["ta", "tb"], ["s"], name="Add"), H.make_node("Transpose", ["s"], ["y"], perm=[1, 0], name="TO")]
+    yield "F/add_forest/custom.Transpose_operand", _model(nodes, [I0, I1], Y, functions=[_lookalike("Transpose", attrs=["perm"])])
+    # Transpose - ReduceMean - Transpose with a lookalike reducer
+    sq4 = [2, 2, 2, 2]
+    fn = H.make_function("custom", "ReduceMean", ["a0", "a1"], ["r"], [H.make_node("Softmax", ["a0"], ["r"], axis=0)], [H.make_opsetid("", OPSET)],
+                         attributes=["keepdims"])
+    nodes = [H.make_node("Transpose", ["in_0"], ["t1"], perm=[0, 3, 1, 2], name="T1"), cn("ReduceMean", ["t1", "ax"], ["r"], "RM", keepdims=1),
+             H.make_node("Transpose", ["r"], ["y"], perm=[0, 2, 3, 1], name="T2")]
+    yield ("F/transpose_reducemean/custom.ReduceMean", _model(nodes, [_vi("in_0", F, sq4)], [_vi("y", F, sq4)], [_const("ax", np.array([1], np.int64))],
+                                                             functions=[fn]))
+    # Dropout lookalike with constant training_mode
+    fn = H.make_function("custom", "Dropout", ["a0", "a1", "a2"], ["r"], [H.make_node("Softmax", ["a0"], ["r"], axis=0)], [H.make_opsetid("", OPSET)])
+    nodes = [H.make_node("Not", ["tm_true"], ["tm"], name="N"), cn("Dropout", ["in_0", "ratio", "tm"], ["y"], "D")]
+    yield ("F/dropout/custom.Dropout", _model(nodes, [I0], Y, [_const("ratio", np.array(0.5, np.float32)), _const("tm_true", np.array(True))], functions=[fn]))
+
+
 def all_graphs():
-    for fam in (misc_family, multi_family, capture_family, table_ops_family, cast_family, reshape_family, transpose_family):
+    for fam in (lookalike_family, misc_family, multi_family, capture_family, table_ops_family, cast_family, reshape_family, transpose_family):
         yield from fam()
